@@ -137,6 +137,13 @@ Proof.
   intros pre a b H Hp. subst pre. cbn in H. apply negb_false_iff in H. apply String.eqb_eq in H. exact H.
 Qed.
 
+Lemma pair_cmds_some : forall id o c,
+  pair_cmds id (o, Some c) =
+  if ep_eqb (set_srcip o (ep_srcip c)) (set_name c (ep_name o)) then [] else enable_cmds id (set_name c (ep_name o)).
+Proof. reflexivity. Qed.
+Lemma pair_cmds_none : forall id o, pair_cmds id (o, None) = disable_cmds id o.
+Proof. reflexivity. Qed.
+
 Lemma exec_pairs_true : forall id pre ps resp n w,
   exec_pairs id pre ps resp n = (true, w) ->
   w = flat_map (pair_cmds id) ps /\ Forall (pair_cookie_ok pre) ps.
@@ -146,11 +153,13 @@ Proof.
   - destruct (check_endpoint_pair id pre o (set_name c (ep_name o)) resp n) as [ok w1] eqn:E1.
     destruct (exec_pairs id pre ps resp (n + List.length w1)) as [ok' w2] eqn:E2.
     inversion H as [[Hok Hw]]. subst w. apply andb_true_iff in Hok. destruct Hok as [-> ->].
-    destruct (IH _ _ _ E2) as [-> Hc]. cbn [flat_map]. unfold pair_cmds at 1. cbn [fst snd].
-    unfold check_endpoint_pair in E1. cbn [ep_srcip set_name] in *.
+    destruct (IH _ _ _ E2) as [-> Hc]. cbn [flat_map]. rewrite pair_cmds_some.
+    unfold check_endpoint_pair in E1.
+    change (ep_srcip (set_name c (ep_name o))) with (ep_srcip c) in E1.
+    change (ep_cookie (set_name c (ep_name o))) with (ep_cookie c) in E1.
     destruct (ep_eqb (set_srcip o (ep_srcip c)) (set_name c (ep_name o))) eqn:Eq.
     + inversion E1; subst. split; [reflexivity|]. constructor; auto. left. exact Eq.
-    + destruct (pre && negb (ep_cookie o =? ep_cookie (set_name c (ep_name o)))) eqn:Ck; [discriminate|].
+    + destruct (pre && negb (ep_cookie o =? ep_cookie c)) eqn:Ck; [discriminate|].
       unfold exec_enable in E1.
       destruct (set_server_group (enable_cmds id (set_name c (ep_name o))) resp n) as [ok w'] eqn:E.
       inversion E1 as [[Hok Hw]]. subst w'.
@@ -164,7 +173,8 @@ Proof.
     inversion H as [[Hok Hw]]. subst w. apply andb_true_iff in Hok. destruct Hok as [Hok ->].
     apply andb_true_iff in Hok. destruct Hok as [-> _].
     apply set_server_group_ok in E1. destruct E1 as [-> _].
-    destruct (IH _ _ _ E2) as [-> Hc]. split; [reflexivity|]. constructor; auto. exact I.
+    destruct (IH _ _ _ E2) as [-> Hc]. cbn [flat_map]. rewrite pair_cmds_none.
+    split; [reflexivity|]. constructor; auto. exact I.
 Qed.
 
 Lemma exec_fills_true : forall id pre fs resp n w,
@@ -300,3 +310,685 @@ Proof.
       cbn [load_ep s_name] in E. rewrite <- E. apply in_map. exact He. }
     rewrite L1, L2. reflexivity.
 Qed.
+
+(* ------------------------------------------------------------------ ep_rel under the three cases *)
+
+Lemma ep_rel_enable : forall pre id s c n,
+  s_name s = n -> ep_enabled c = true -> (0 <= ep_weight c)%Z -> (pre = true -> s_cookie s = ep_cookie c) ->
+  ep_rel pre (fold_left srv_apply (enable_cmds id (set_name c n)) s) (set_name c n).
+Proof.
+  intros pre id s c n Hn Hen Hw Hck. rewrite apply_enable. unfold ep_rel, eff_weight.
+  cbn [s_name s_adm s_addr s_port s_weight s_cookie set_name ep_name ep_enabled ep_ip ep_port ep_weight ep_cookie].
+  split; [exact Hn|]. split; [intros E; congruence|]. split; [|exact Hck].
+  intros _. destruct (Z.ltb_spec 0 (ep_weight c)).
+  - repeat split; try discriminate; reflexivity.
+  - repeat split; try discriminate; try reflexivity. lia.
+Qed.
+
+Lemma ep_rel_disable : forall pre id s o e',
+  s_name s = ep_name e' -> ep_enabled e' = false -> (pre = true -> s_cookie s = ep_cookie e') ->
+  ep_rel pre (fold_left srv_apply (disable_cmds id o) s) e'.
+Proof.
+  intros pre id s o e' Hn Hd Hck. rewrite apply_disable. unfold ep_rel.
+  cbn [s_name s_adm s_addr s_port s_weight s_cookie].
+  split; [exact Hn|]. split; [reflexivity|]. split; [intros E; congruence|exact Hck].
+Qed.
+
+Lemma ep_rel_same_fields : forall pre s o e,
+  ep_rel pre s o -> ep_name e = ep_name o -> ep_enabled e = ep_enabled o -> ep_ip e = ep_ip o ->
+  ep_port e = ep_port o -> ep_weight e = ep_weight o -> ep_cookie e = ep_cookie o -> ep_rel pre s e.
+Proof.
+  unfold ep_rel. intros pre s o e [H1 [H2 [H3 H4]]] -> -> -> -> -> ->. auto.
+Qed.
+
+(* ------------------------------------------------------------------ structure of the new layout *)
+
+Definition copy_of (e cp : endpoint) : Prop :=
+  ep_name cp = ep_name e /\ ep_cookie cp = ep_cookie e /\ ep_enabled cp = false /\ is_empty cp = true /\ ep_port cp = 1023%Z.
+
+Lemma copy_empties_spec : forall w rest eps, exists cps,
+  copy_empties w rest eps = (eps ++ cps)%list /\ Forall2 copy_of rest cps.
+Proof.
+  induction rest as [|e rest IH]; intros eps; cbn [copy_empties].
+  - exists []. rewrite app_nil_r. split; [reflexivity|constructor].
+  - destruct (IH (eps ++ [set_cookie (set_name (empty_endpoint w (S (List.length eps))) (ep_name e)) (ep_cookie e)])%list) as [cps [E F]].
+    eexists. split.
+    + rewrite E, <- app_assoc. cbn [app]. reflexivity.
+    + constructor; [|exact F]. repeat split; reflexivity.
+Qed.
+
+Lemma slot_of_pairs_some : forall t ps n, slot_of_pairs t ps = Some n ->
+  exists o c, In (o, Some c) ps /\ ep_target c = t /\ n = ep_name o.
+Proof.
+  induction ps as [|[o [c|]] ps IH]; intros n H; cbn [slot_of_pairs] in H; [discriminate| |].
+  - destruct (String.eqb_spec (ep_target c) t) as [E|_].
+    + inversion H; subst. exists o, c. split; [left; reflexivity|auto].
+    + destruct (IH _ H) as [o' [c' [Hi Hr]]]. exists o', c'. split; [right; exact Hi|exact Hr].
+  - destruct (IH _ H) as [o' [c' [Hi Hr]]]. exists o', c'. split; [right; exact Hi|exact Hr].
+Qed.
+
+Lemma slot_of_pairs_none : forall t ps, slot_of_pairs t ps = None ->
+  forall o c, In (o, Some c) ps -> ep_target c <> t.
+Proof.
+  induction ps as [|[o [c|]] ps IH]; intros H o' c' Hin; cbn [slot_of_pairs] in H; [contradiction| |].
+  - destruct (String.eqb_spec (ep_target c) t) as [E|Hne]; [discriminate|].
+    destruct Hin as [Hin|Hin]; [inversion Hin; subst; exact Hne|eapply IH; eauto].
+  - destruct Hin as [Hin|Hin]; [discriminate|eapply IH; eauto].
+Qed.
+
+Lemma slot_of_fills_some : forall t fs n, slot_of_fills t fs = Some n ->
+  exists c e, In (c, e) fs /\ ep_target c = t /\ n = ep_name e.
+Proof.
+  induction fs as [|[c e] fs IH]; intros n H; cbn [slot_of_fills] in H; [discriminate|].
+  destruct (String.eqb_spec (ep_target c) t) as [E|_].
+  - inversion H; subst. exists c, e. split; [left; reflexivity|auto].
+  - destruct (IH _ H) as [c' [e' [Hi Hr]]]. exists c', e'. split; [right; exact Hi|exact Hr].
+Qed.
+
+Lemma slot_of_fills_none : forall t fs, slot_of_fills t fs = None ->
+  forall c e, In (c, e) fs -> ep_target c <> t.
+Proof.
+  induction fs as [|[c e] fs IH]; intros H c' e' Hin; cbn [slot_of_fills] in H; [contradiction|].
+  destruct (String.eqb_spec (ep_target c) t) as [E|Hne]; [discriminate|].
+  destruct Hin as [Hin|Hin]; [inversion Hin; subst; exact Hne|eapply IH; eauto].
+Qed.
+
+(* positional versions, for the names *)
+Definition some_olds (ps : list (endpoint * option endpoint)) : list endpoint :=
+  flat_map (fun p => match snd p with Some _ => [fst p] | None => [] end) ps.
+
+Lemma slot_of_pairs_app : forall t a b,
+  slot_of_pairs t (a ++ b) = match slot_of_pairs t a with Some n => Some n | None => slot_of_pairs t b end.
+Proof.
+  induction a as [|[o [c|]] a IH]; intros b; cbn [app slot_of_pairs]; [reflexivity| |apply IH].
+  destruct (ep_target c =? t); [reflexivity|apply IH].
+Qed.
+
+Lemma slot_of_pairs_notin : forall t a, ~ In t (map ep_target (somes a)) -> slot_of_pairs t a = None.
+Proof.
+  intros t a Hn. destruct (slot_of_pairs t a) eqn:E; [|reflexivity].
+  apply slot_of_pairs_some in E. destruct E as [o [c [Hi [Et _]]]].
+  exfalso. apply Hn. rewrite <- Et. apply in_map. apply in_somes. eauto.
+Qed.
+
+Lemma somes_app : forall a b, somes (a ++ b) = (somes a ++ somes b)%list.
+Proof. intros; unfold somes. apply flat_map_app. Qed.
+
+Lemma pairs_slots_positional : forall suf pre,
+  NoDup (map ep_target (somes (pre ++ suf))) ->
+  map (fun c => slot_of_pairs (ep_target c) (pre ++ suf)) (somes suf) = map (fun o => Some (ep_name o)) (some_olds suf).
+Proof.
+  induction suf as [|[o [c|]] suf IH]; intros pre Hn; [reflexivity| |].
+  - unfold somes, some_olds in *. cbn [flat_map snd fst some_list app map].
+    f_equal.
+    + rewrite slot_of_pairs_app. rewrite slot_of_pairs_notin.
+      * cbn [slot_of_pairs]. rewrite String.eqb_refl. reflexivity.
+      * fold (somes pre). rewrite flat_map_app in Hn. cbn [flat_map snd some_list app] in Hn.
+        rewrite map_app in Hn. cbn [map] in Hn. apply NoDup_remove_2 in Hn.
+        intros Hin. apply Hn. apply in_or_app. left. exact Hin.
+    + specialize (IH (pre ++ [(o, Some c)])%list). rewrite <- app_assoc in IH. cbn [app] in IH. apply IH. exact Hn.
+  - unfold somes, some_olds in *. cbn [flat_map snd fst some_list app map].
+    specialize (IH (pre ++ [(o, None)])%list). rewrite <- app_assoc in IH. cbn [app] in IH. apply IH. exact Hn.
+Qed.
+
+Lemma slot_of_fills_app : forall t a b,
+  slot_of_fills t (a ++ b) = match slot_of_fills t a with Some n => Some n | None => slot_of_fills t b end.
+Proof.
+  induction a as [|[c e] a IH]; intros b; cbn [app slot_of_fills]; [reflexivity|].
+  destruct (ep_target c =? t); [reflexivity|apply IH].
+Qed.
+
+Lemma slot_of_fills_notin : forall t a, ~ In t (map ep_target (map fst a)) -> slot_of_fills t a = None.
+Proof.
+  intros t a Hn. destruct (slot_of_fills t a) eqn:E; [|reflexivity].
+  apply slot_of_fills_some in E. destruct E as [c [e [Hi [Et _]]]].
+  exfalso. apply Hn. rewrite <- Et. apply in_map. apply in_map_iff. exists (c, e). auto.
+Qed.
+
+Lemma fills_slots_positional : forall suf pre,
+  NoDup (map ep_target (map fst (pre ++ suf))) ->
+  map (fun f => slot_of_fills (ep_target (fst f)) (pre ++ suf)) suf = map (fun f => Some (ep_name (snd f))) suf.
+Proof.
+  induction suf as [|[c e] suf IH]; intros pre Hn; [reflexivity|].
+  cbn [map fst snd]. f_equal.
+  - rewrite slot_of_fills_app, slot_of_fills_notin.
+    + cbn [slot_of_fills]. rewrite String.eqb_refl. reflexivity.
+    + rewrite !map_app in Hn. cbn [map fst] in Hn. apply NoDup_remove_2 in Hn.
+      intros Hin. apply Hn. apply in_or_app. left. exact Hin.
+  - specialize (IH (pre ++ [(c, e)])%list). rewrite <- app_assoc in IH. cbn [app] in IH. apply IH. exact Hn.
+Qed.
+
+Lemma map_option_names : forall {A B} (g : A -> option string) (k : A -> string) (h : B -> string) l l',
+  map g l = map (fun o => Some (h o)) l' -> (forall c n, In c l -> g c = Some n -> k c = n) -> map k l = map h l'.
+Proof.
+  induction l as [|x l IH]; intros l' E Hk; destruct l' as [|y l']; cbn [map] in *; try discriminate; [reflexivity|].
+  inversion E as [[E1 E2]]. f_equal; [apply Hk; [left; reflexivity|exact E1]|apply IH; auto].
+  intros c n Hc. apply Hk. right. exact Hc.
+Qed.
+
+Lemma NoDup_app_remove_l : forall {A} (a b : list A), NoDup (a ++ b) -> NoDup b.
+Proof.
+  induction a as [|x a IH]; intros b H; [exact H|]. cbn [app] in H. inversion H; subst. apply IH. assumption.
+Qed.
+Lemma NoDup_app_remove_r : forall {A} (a b : list A), NoDup (a ++ b) -> NoDup a.
+Proof.
+  induction a as [|x a IH]; intros b H; [constructor|]. cbn [app] in H. inversion H as [|? ? Hx Hn]; subst.
+  constructor; [|eapply IH; eauto]. intros Hin. apply Hx. apply in_or_app. left. exact Hin.
+Qed.
+
+Lemma firstn_In : forall {A} k (l : list A) x, In x (firstn k l) -> In x l.
+Proof.
+  intros A k l x H. rewrite <- (firstn_skipn k l). apply in_or_app. left. exact H.
+Qed.
+
+Lemma nodup_app_disjoint : forall {A} (a b : list A) x, NoDup (a ++ b) -> In x a -> In x b -> False.
+Proof.
+  induction a as [|y a IH]; intros b x Hn Ha Hb; [contradiction|].
+  cbn [app] in Hn. inversion Hn as [|? ? Hy Hn']; subst. destruct Ha as [->|Ha].
+  - apply Hy. apply in_or_app. right. exact Hb.
+  - eapply IH; eauto.
+Qed.
+
+Lemma rename_name_pairs : forall ps fs c n, slot_of_pairs (ep_target c) ps = Some n -> ep_name (rename ps fs c) = n.
+Proof. intros ps fs c n H. unfold rename. rewrite H. reflexivity. Qed.
+Lemma rename_name_fills : forall ps fs c n, slot_of_pairs (ep_target c) ps = None ->
+  slot_of_fills (ep_target c) fs = Some n -> ep_name (rename ps fs c) = n.
+Proof. intros ps fs c n H1 H2. unfold rename. rewrite H1, H2. reflexivity. Qed.
+
+Lemma some_olds_vacated_perm : forall ps, Permutation (map fst ps) (some_olds ps ++ vacated ps).
+Proof.
+  induction ps as [|[o [c|]] ps IH]; unfold some_olds, vacated in *; cbn [map fst snd flat_map filter app]; [constructor| |].
+  - constructor. exact IH.
+  - eapply perm_trans; [apply perm_skip; exact IH|]. apply Permutation_middle.
+Qed.
+
+Lemma combine_fst : forall {A B} (a : list A) (b : list B), (List.length a <= List.length b)%nat -> map fst (combine a b) = a.
+Proof.
+  induction a as [|x a IH]; intros b H; [reflexivity|]. destruct b as [|y b]; cbn [List.length] in H; [lia|].
+  cbn [combine map fst]. f_equal. apply IH. lia.
+Qed.
+Lemma combine_snd : forall {A B} (a : list A) (b : list B), (List.length a <= List.length b)%nat ->
+  map snd (combine a b) = firstn (List.length a) b.
+Proof.
+  induction a as [|x a IH]; intros b H; [reflexivity|]. destruct b as [|y b]; cbn [List.length] in H; [lia|].
+  cbn [combine map snd List.length firstn]. f_equal. apply IH. lia.
+Qed.
+
+Lemma skipn_firstn_disjoint : forall {A B} (f : A -> B) k l x,
+  NoDup (map f l) -> In x (skipn k l) -> ~ In (f x) (map f (firstn k l)).
+Proof.
+  intros A B f k l x Hn Hx Hin.
+  rewrite <- (firstn_skipn k l) in Hn. rewrite map_app in Hn.
+  apply in_map with (f := f) in Hx.
+  revert Hn Hin Hx. generalize (map f (firstn k l)) (map f (skipn k l)) (f x). clear.
+  induction l as [|a l IH]; intros l2 b Hn H1 H2; [contradiction|].
+  cbn [app] in Hn. inversion Hn as [|? ? Ha Hn']; subst.
+  destruct H1 as [->|H1].
+  - apply Ha. apply in_or_app. right. exact H2.
+  - eapply IH; eauto.
+Qed.
+
+(* ------------------------------------------------------------------ the pairing branch *)
+
+(* the new endpoints, as the converters create them: enabled, not the 127.0.0.1 of an empty slot,
+   weight not negative *)
+Definition cur_ok (cur : list endpoint) : Prop :=
+  Forall (fun c => ep_enabled c = true /\ is_empty c = false /\ (0 <= ep_weight c)%Z) cur.
+
+Lemma cur_ok_enabled : forall cur, cur_ok cur -> cur_enabled cur.
+Proof. intros cur H. eapply Forall_impl; [|exact H]. intros a Ha; cbn beta in *; tauto. Qed.
+
+Section MainBranch.
+  Variables (id : string) (pre : bool) (initw : Z) (old cur : list endpoint) (run : run_state).
+  Let en := filter ep_enabled old.
+  Let empty0 := filter (fun e => negb (ep_enabled e)) old.
+  Let added0 := filter (fun c => match find_target (ep_target c) en with None => true | Some _ => false end) cur.
+
+  Hypothesis Hnames : NoDup (map ep_name old).
+  Hypothesis Hcurok : cur_ok cur.
+  Hypothesis Hold : dup_target old = false.
+  Hypothesis Hcur : NoDup (map ep_target cur).
+  Hypothesis Hlen : (List.length cur <= List.length old)%nat.
+
+  Variables (ps : list (endpoint * option endpoint)) (added : list endpoint).
+  Hypothesis Hloop : pair_loop (sort_by_target en) cur added0 = (ps, added).
+
+  Let empty := (empty0 ++ vacated ps)%list.
+  Let fs := combine added empty.
+  Let k := List.length added.
+
+  Hypothesis Hpc : Forall (pair_cookie_ok pre) ps.
+  Hypothesis Hfc : Forall (fill_cookie_ok pre) fs.
+  Hypothesis Hrun : slot_rel pre run old.
+
+  Let cmds := (flat_map (pair_cmds id) ps ++ flat_map (fill_cmds id) fs)%list.
+  Let eps' := copy_empties initw (skipn k empty) (map (rename ps fs) cur).
+
+  Let Hperm : Permutation cur (somes ps ++ added) := pairing_perm old cur Hold Hcur ps added Hloop.
+
+  Lemma mb_k_le : (k <= List.length empty)%nat.
+  Proof. unfold k, empty, empty0. eapply pairing_no_panic; eauto. Qed.
+
+  Lemma mb_fst_ps : map fst ps = sort_by_target en.
+  Proof. destruct (pair_loop_spec _ _ _ _ _ Hloop) as [H _]. exact H. Qed.
+
+  Lemma mb_old_perm : Permutation old (sort_by_target en ++ empty0).
+  Proof.
+    eapply perm_trans; [apply (filter_partition_perm ep_enabled)|].
+    apply Permutation_app_tail. symmetry. apply sort_by_target_perm.
+  Qed.
+
+  Lemma mb_names_sorted_empty0 : NoDup (map ep_name (sort_by_target en ++ empty0)).
+  Proof. eapply Permutation_NoDup; [|exact Hnames]. apply Permutation_map. apply mb_old_perm. Qed.
+
+  Lemma mb_vacated_in_sorted : forall e, In e (vacated ps) -> In (e, None) ps /\ In e (sort_by_target en).
+  Proof.
+    intros e H. unfold vacated in H. apply in_map_iff in H. destruct H as [[o x] [E Hf]].
+    apply filter_In in Hf. destruct Hf as [Hin Hs]. cbn [fst snd] in *. subst o.
+    destruct x; [discriminate|]. split; auto. rewrite <- mb_fst_ps. apply in_map with (f := fst) in Hin. exact Hin.
+  Qed.
+
+  Lemma mb_added_nil_or_novac : added = [] \/ vacated ps = [].
+  Proof.
+    destruct (pair_loop_spec _ _ _ _ _ Hloop) as [_ [_ [Hv _]]].
+    destruct (vacated ps) eqn:E; [right; reflexivity|left]. apply Hv. discriminate.
+  Qed.
+
+  Lemma mb_names_empty : NoDup (map ep_name empty).
+  Proof.
+    unfold empty. destruct mb_added_nil_or_novac as [_ | ->].
+    2:{ rewrite app_nil_r. pose proof mb_names_sorted_empty0 as H. rewrite map_app in H. apply NoDup_app_remove_l in H. exact H. }
+    (* general case: empty0 ++ vacated is a sub-multiset of sorted ++ empty0 *)
+    pose proof mb_names_sorted_empty0 as H.
+    assert (Hp : Permutation (map fst ps) (some_olds ps ++ vacated ps)) by apply some_olds_vacated_perm.
+    rewrite mb_fst_ps in Hp.
+    assert (Hq : Permutation (sort_by_target en ++ empty0) (some_olds ps ++ (empty0 ++ vacated ps))).
+    { eapply perm_trans; [apply Permutation_app_tail; exact Hp|].
+      rewrite <- app_assoc. apply Permutation_app_head. apply Permutation_app_comm. }
+    eapply Permutation_NoDup in H; [|apply Permutation_map; exact Hq].
+    rewrite map_app in H. apply NoDup_app_remove_l in H. exact H.
+  Qed.
+
+  Lemma mb_fs_fst : map fst fs = added.
+  Proof. unfold fs. apply combine_fst. apply mb_k_le. Qed.
+  Lemma mb_fs_snd : map snd fs = firstn k empty.
+  Proof. unfold fs, k. apply combine_snd. apply mb_k_le. Qed.
+
+  Lemma mb_fill_in_empty0 : forall c e, In (c, e) fs -> In e empty0 /\ In c added.
+  Proof.
+    intros c e H. split.
+    - assert (He : In e (firstn k empty)) by (rewrite <- mb_fs_snd; apply in_map_iff; exists (c, e); auto).
+      apply firstn_In in He. unfold empty in He.
+      destruct mb_added_nil_or_novac as [Ha|Hv].
+      + exfalso. unfold fs in H. rewrite Ha in H. cbn in H. exact H.
+      + rewrite Hv, app_nil_r in He. exact He.
+    - rewrite <- mb_fs_fst. apply in_map_iff. exists (c, e). auto.
+  Qed.
+
+  Definition mb_groups : list group := (map (pair_group id) ps ++ map (fill_group id) fs)%list.
+
+  Lemma mb_groups_cmds : flat_map snd mb_groups = cmds.
+  Proof. unfold mb_groups, cmds. rewrite flat_map_app, !flat_map_groups. reflexivity. Qed.
+
+  Lemma mb_groups_ok : Forall group_ok mb_groups.
+  Proof.
+    unfold mb_groups. apply Forall_app. split; apply Forall_forall; intros g Hg; apply in_map_iff in Hg;
+      destruct Hg as [x [<- _]]; [apply pair_group_ok|apply fill_group_ok].
+  Qed.
+
+  Lemma mb_groups_keys : map fst mb_groups = (map ep_name (sort_by_target en) ++ map ep_name (firstn k empty))%list.
+  Proof.
+    unfold mb_groups. rewrite map_app, !map_map. cbn [pair_group fill_group fst].
+    rewrite <- mb_fst_ps, <- mb_fs_snd, !map_map. reflexivity.
+  Qed.
+
+  Lemma mb_groups_nodup : NoDup (map fst mb_groups).
+  Proof.
+    rewrite mb_groups_keys. pose proof mb_names_sorted_empty0 as H. rewrite map_app in H.
+    destruct mb_added_nil_or_novac as [Ha|Hv].
+    - unfold k. rewrite Ha. cbn [List.length firstn map]. rewrite app_nil_r. apply NoDup_app_remove_r in H. exact H.
+    - unfold empty. rewrite Hv, app_nil_r.
+      rewrite <- (firstn_skipn k empty0) in H. rewrite map_app, app_assoc in H. apply NoDup_app_remove_r in H. exact H.
+  Qed.
+
+  Lemma mb_lookup_final : forall g s, In g mb_groups -> lookup (fst g) run = Some s ->
+    lookup (fst g) (apply_cmds run cmds) = Some (fold_left srv_apply (snd g) s).
+  Proof.
+    intros g s Hg Hl. rewrite lookup_apply_cmds, <- mb_groups_cmds, Hl.
+    rewrite filter_groups_in; auto using mb_groups_ok, mb_groups_nodup.
+  Qed.
+
+  Lemma mb_lookup_untouched : forall n, ~ In n (map fst mb_groups) ->
+    lookup n (apply_cmds run cmds) = lookup n run.
+  Proof.
+    intros n Hn. rewrite lookup_apply_cmds, <- mb_groups_cmds.
+    rewrite filter_groups_notin; auto using mb_groups_ok. destruct (lookup n run); reflexivity.
+  Qed.
+
+  Lemma mb_old_rel : forall o, In o old -> exists s, lookup (ep_name o) run = Some s /\ ep_rel pre s o.
+  Proof. intros o Ho. destruct Hrun as [_ H]. apply H. exact Ho. Qed.
+
+  Lemma mb_sorted_old : forall o, In o (sort_by_target en) -> In o old /\ ep_enabled o = true.
+  Proof.
+    intros o H. eapply Permutation_in in H; [|apply sort_by_target_perm]. apply filter_In in H. exact H.
+  Qed.
+  Lemma mb_empty0_old : forall e, In e empty0 -> In e old /\ ep_enabled e = false.
+  Proof.
+    intros e H. apply filter_In in H. destruct H as [H1 H2]. split; auto. apply negb_true_iff in H2. exact H2.
+  Qed.
+
+  Lemma mb_targets_nodup : NoDup (map ep_target (somes ps ++ added)).
+  Proof. eapply Permutation_NoDup; [|exact Hcur]. apply Permutation_map. exact Hperm. Qed.
+
+  Lemma mb_cur_fields : forall c, In c cur -> ep_enabled c = true /\ (0 <= ep_weight c)%Z.
+  Proof. intros c H. unfold cur_ok in Hcurok. rewrite Forall_forall in Hcurok. destruct (Hcurok c H) as [? [? ?]]. auto. Qed.
+
+  Lemma mb_in_somes_cur : forall c, In c (somes ps) -> In c cur.
+  Proof. intros c H. eapply Permutation_in; [symmetry; exact Hperm|]. apply in_or_app; left; exact H. Qed.
+  Lemma mb_in_added_cur : forall c, In c added -> In c cur.
+  Proof. intros c H. eapply Permutation_in; [symmetry; exact Hperm|]. apply in_or_app; right; exact H. Qed.
+
+  (* every new endpoint ends in a slot whose running server is related to it *)
+  Lemma mb_renamed_rel : forall c, In c cur ->
+    exists s, lookup (ep_name (rename ps fs c)) (apply_cmds run cmds) = Some s /\ ep_rel pre s (rename ps fs c).
+  Proof.
+    intros c Hc. destruct (mb_cur_fields c Hc) as [Hen Hw].
+    assert (Hc' : In c (somes ps ++ added)) by (eapply Permutation_in; [exact Hperm|exact Hc]).
+    destruct (slot_of_pairs (ep_target c) ps) as [n|] eqn:S1.
+    - (* the slot of a pair *)
+      destruct (slot_of_pairs_some _ _ _ S1) as [o [c0 [Hin [Et ->]]]].
+      assert (c0 = c).
+      { eapply NoDup_map_injective with (f := ep_target); [exact Hcur| |exact Hc|exact Et].
+        apply mb_in_somes_cur. apply in_somes. eauto. }
+      subst c0. unfold rename. rewrite S1.
+      assert (Ho : In o (sort_by_target en)) by (rewrite <- mb_fst_ps; apply in_map with (f := fst) in Hin; exact Hin).
+      destruct (mb_sorted_old o Ho) as [Hoo Hoen].
+      destruct (mb_old_rel o Hoo) as [s [Hl Hr]].
+      assert (Hg : In (pair_group id (o, Some c)) mb_groups).
+      { unfold mb_groups. apply in_or_app. left. apply in_map. exact Hin. }
+      pose proof (mb_lookup_final _ s Hg Hl) as Hfin. cbn [pair_group fst snd] in Hfin.
+      change (ep_name (set_name c (ep_name o))) with (ep_name o).
+      rewrite Hfin. eexists. split; [reflexivity|].
+      rewrite pair_cmds_some.
+      pose proof Hpc as Hp0. rewrite Forall_forall in Hp0. specialize (Hp0 _ Hin). unfold pair_cookie_ok in Hp0. cbn [fst snd] in Hp0.
+      destruct (ep_eqb (set_srcip o (ep_srcip c)) (set_name c (ep_name o))) eqn:Eq.
+      + cbn [fold_left]. apply ep_eqb_eq in Eq.
+        eapply ep_rel_same_fields; [exact Hr| | | | | |]; rewrite <- Eq; reflexivity.
+      + destruct Hp0 as [Hp0|Hp0]; [congruence|].
+        apply ep_rel_enable; auto.
+        * destruct Hr as [Hn _]. exact Hn.
+        * intros Hp. destruct Hr as [_ [_ [_ Hk]]]. rewrite (Hk Hp). apply Hp0. exact Hp.
+    - (* an empty slot *)
+      assert (Hadd : In c added).
+      { apply in_app_or in Hc'. destruct Hc' as [Hs|Ha]; auto.
+        exfalso. apply in_somes in Hs. destruct Hs as [o Ho].
+        eapply slot_of_pairs_none in S1; eauto. }
+      destruct (slot_of_fills (ep_target c) fs) as [n|] eqn:S2.
+      2:{ exfalso. rewrite <- mb_fs_fst in Hadd. apply in_map_iff in Hadd. destruct Hadd as [[c1 e1] [E Hin]].
+          cbn [fst] in E. subst c1. eapply slot_of_fills_none in S2; eauto. }
+      destruct (slot_of_fills_some _ _ _ S2) as [c0 [e [Hin [Et ->]]]].
+      destruct (mb_fill_in_empty0 _ _ Hin) as [He Hc0].
+      assert (c0 = c).
+      { eapply NoDup_map_injective with (f := ep_target); [exact Hcur| |exact Hc|exact Et]. apply mb_in_added_cur. exact Hc0. }
+      subst c0. unfold rename. rewrite S1, S2.
+      destruct (mb_empty0_old e He) as [Heo Hed].
+      destruct (mb_old_rel e Heo) as [s [Hl Hr]].
+      assert (Hg : In (fill_group id (c, e)) mb_groups).
+      { unfold mb_groups. apply in_or_app. right. apply in_map. exact Hin. }
+      pose proof (mb_lookup_final _ s Hg Hl) as Hfin. cbn [fill_group fst snd] in Hfin.
+      change (ep_name (set_name c (ep_name e))) with (ep_name e).
+      rewrite Hfin. eexists. split; [reflexivity|].
+      unfold fill_cmds. cbn [fst snd].
+      pose proof Hfc as Hf0. rewrite Forall_forall in Hf0. specialize (Hf0 _ Hin). unfold fill_cookie_ok in Hf0. cbn [fst snd] in Hf0.
+      apply ep_rel_enable; auto.
+      + destruct Hr as [Hn _]. exact Hn.
+      + intros Hp. destruct Hr as [_ [_ [_ Hk]]]. rewrite (Hk Hp). symmetry. apply Hf0. exact Hp.
+  Qed.
+
+  (* every remaining empty slot is in maintenance in the running state *)
+  Lemma mb_copy_rel : forall e cp, In e (skipn k empty) -> copy_of e cp ->
+    exists s, lookup (ep_name cp) (apply_cmds run cmds) = Some s /\ ep_rel pre s cp.
+  Proof.
+    intros e cp He [Hn [Hck [Hdis _]]].
+    assert (Hemp : In e empty) by (rewrite <- (firstn_skipn k empty); apply in_or_app; right; exact He).
+    unfold empty in Hemp. apply in_app_or in Hemp. destruct Hemp as [H0|Hv].
+    - (* an empty slot that was not used: untouched *)
+      destruct (mb_empty0_old e H0) as [Heo Hed].
+      destruct (mb_old_rel e Heo) as [s [Hl Hr]].
+      assert (Hnot : ~ In (ep_name e) (map fst mb_groups)).
+      { rewrite mb_groups_keys. intros Hin. apply in_app_or in Hin. destruct Hin as [Hin|Hin].
+        - pose proof mb_names_sorted_empty0 as Hnd. rewrite map_app in Hnd.
+          apply in_map_iff in Hin. destruct Hin as [o [En Ho]].
+          eapply nodup_app_disjoint; [exact Hnd|apply in_map; exact Ho|]. rewrite En. apply in_map. exact H0.
+        - eapply (skipn_firstn_disjoint ep_name k empty e); eauto using mb_names_empty. }
+      rewrite Hn, (mb_lookup_untouched _ Hnot), Hl. eexists. split; [reflexivity|].
+      destruct Hr as [R1 [R2 [R3 R4]]]. unfold ep_rel. rewrite Hn, Hck, Hdis.
+      split; [exact R1|]. split; [intros _; apply R2; exact Hed|]. split; [discriminate|exact R4].
+    - (* a vacated slot: disabled by its three commands *)
+      destruct (mb_vacated_in_sorted e Hv) as [Hin Hs].
+      destruct (mb_sorted_old e Hs) as [Heo Hen].
+      destruct (mb_old_rel e Heo) as [s [Hl Hr]].
+      assert (Hg : In (pair_group id (e, None)) mb_groups).
+      { unfold mb_groups. apply in_or_app. left. apply in_map. exact Hin. }
+      pose proof (mb_lookup_final _ s Hg Hl) as Hfin. cbn [pair_group fst snd] in Hfin.
+      rewrite Hn, Hfin. eexists. split; [reflexivity|]. rewrite pair_cmds_none.
+      destruct Hr as [R1 [_ [_ R4]]].
+      apply ep_rel_disable; auto.
+      + rewrite Hn. exact R1.
+      + rewrite Hck. exact R4.
+  Qed.
+
+  (* the names of the new layout are the names of the old one *)
+  Lemma mb_names_perm : forall cps, Forall2 copy_of (skipn k empty) cps ->
+    Permutation (map ep_name (map (rename ps fs) cur ++ cps)) (map ep_name old).
+  Proof.
+    intros cps Hcp.
+    assert (Hcps : map ep_name cps = map ep_name (skipn k empty)).
+    { clear -Hcp. induction Hcp as [|e cp l l' [Hn _] _ IH]; [reflexivity|]. cbn [map]. rewrite Hn, IH. reflexivity. }
+    rewrite map_app, Hcps, map_map.
+    pose proof mb_targets_nodup as Hnd. rewrite map_app in Hnd.
+    (* the renamed new endpoints *)
+    assert (H1 : map (fun c => ep_name (rename ps fs c)) (somes ps) = map ep_name (some_olds ps)).
+    { eapply map_option_names with (g := fun c => slot_of_pairs (ep_target c) ps).
+      - apply (pairs_slots_positional ps []). cbn [app]. apply NoDup_app_remove_r in Hnd. exact Hnd.
+      - intros c n _ H. apply rename_name_pairs. exact H. }
+    assert (H2 : map (fun f => ep_name (rename ps fs (fst f))) fs = map (fun f => ep_name (snd f)) fs).
+    { eapply map_option_names with (g := fun f => slot_of_fills (ep_target (fst f)) fs).
+      - apply (fills_slots_positional fs []). cbn [app]. rewrite mb_fs_fst. apply NoDup_app_remove_l in Hnd. exact Hnd.
+      - intros [c e] n Hin H. cbn [fst] in *. apply rename_name_fills; auto.
+        apply slot_of_pairs_notin. intros Hs.
+        assert (Hc : In c added) by (rewrite <- mb_fs_fst; apply in_map_iff; exists (c, e); auto).
+        eapply nodup_app_disjoint; [exact Hnd|exact Hs|apply in_map; exact Hc]. }
+    assert (H2' : map (fun c => ep_name (rename ps fs c)) added = map ep_name (firstn k empty)).
+    { rewrite <- mb_fs_snd. rewrite <- mb_fs_fst at 1. rewrite !map_map. exact H2. }
+    eapply perm_trans.
+    { apply Permutation_app_tail. apply Permutation_map. exact Hperm. }
+    rewrite map_app, H1, H2', <- app_assoc, <- map_app, firstn_skipn.
+    unfold empty. rewrite map_app.
+    eapply perm_trans; [|apply Permutation_map; symmetry; apply mb_old_perm].
+    rewrite map_app, <- mb_fst_ps.
+    eapply perm_trans; [|apply Permutation_app_tail; apply Permutation_map; symmetry; apply some_olds_vacated_perm].
+    rewrite map_app, <- app_assoc. apply Permutation_app_head. apply Permutation_app_comm.
+  Qed.
+
+  Lemma mb_slot_rel : slot_rel pre (apply_cmds run cmds) eps'.
+  Proof.
+    unfold eps'. destruct (copy_empties_spec initw (skipn k empty) (map (rename ps fs) cur)) as [cps [E F]].
+    rewrite E. split.
+    - rewrite names_apply_cmds. destruct Hrun as [Hp _].
+      eapply perm_trans; [exact Hp|]. symmetry. apply mb_names_perm. exact F.
+    - intros e' Hin. apply in_app_or in Hin. destruct Hin as [Hin|Hin].
+      + apply in_map_iff in Hin. destruct Hin as [c [<- Hc]]. apply mb_renamed_rel. exact Hc.
+      + assert (Hex : exists e, In e (skipn k empty) /\ copy_of e e').
+        { clear -F Hin. induction F as [|e cp l l' Hc _ IH]; [contradiction|].
+          destruct Hin as [->|Hin]; [exists e; split; [left; reflexivity|exact Hc]|].
+          destruct (IH Hin) as [e0 [H1 H2]]. exists e0. split; [right; exact H1|exact H2]. }
+        destruct Hex as [e [He Hc]]. eapply mb_copy_rel; eauto.
+  Qed.
+
+  (* the new layout is again a layout: distinct names, empty slots disabled on 127.0.0.1:1023 *)
+  Lemma mb_layout : NoDup (map ep_name eps') /\ List.length eps' = List.length old /\
+    Forall (fun e => ep_enabled e = negb (is_empty e) /\ (ep_enabled e = false -> ep_port e = 1023%Z)) eps'.
+  Proof.
+    unfold eps'. destruct (copy_empties_spec initw (skipn k empty) (map (rename ps fs) cur)) as [cps [E F]].
+    rewrite E. pose proof (mb_names_perm cps F) as Hp. split; [|split].
+    - eapply Permutation_NoDup; [symmetry; exact Hp|exact Hnames].
+    - apply Permutation_length in Hp. rewrite !map_length in Hp. exact Hp.
+    - apply Forall_app. split.
+      + apply Forall_forall. intros e' Hin. apply in_map_iff in Hin. destruct Hin as [c [<- Hc]].
+        unfold cur_ok in Hcurok. rewrite Forall_forall in Hcurok. destruct (Hcurok c Hc) as [Hen [Hem _]].
+        assert (Hf : ep_enabled (rename ps fs c) = ep_enabled c /\ is_empty (rename ps fs c) = is_empty c).
+        { unfold rename. destruct (slot_of_pairs _ _); [split; reflexivity|]. destruct (slot_of_fills _ _); split; reflexivity. }
+        destruct Hf as [-> ->]. rewrite Hen, Hem. split; [reflexivity|discriminate].
+      + clear -F. induction F as [|e cp l l' [_ [_ [Hd [He Hpo]]]] _ IH]; constructor; auto.
+        rewrite Hd, He. split; [reflexivity|intros _; exact Hpo].
+  Qed.
+End MainBranch.
+
+(* ------------------------------------------------------------------ one update *)
+
+(* a slot layout as earlier updates and alignSlots leave it: distinct server names; a slot is
+   disabled exactly when it is an empty one (127.0.0.1), and then its port is 1023 *)
+Definition layout_ok (eps : list endpoint) : Prop :=
+  NoDup (map ep_name eps) /\
+  Forall (fun e => ep_enabled e = negb (is_empty e) /\ (ep_enabled e = false -> ep_port e = 1023%Z)) eps.
+
+Lemma layout_ok_perm : forall a b, Permutation a b -> layout_ok b -> layout_ok a.
+Proof.
+  intros a b Hp [H1 H2]. split.
+  - eapply Permutation_NoDup; [apply Permutation_map; symmetry; exact Hp|exact H1].
+  - eapply Permutation_Forall; [symmetry; exact Hp|exact H2].
+Qed.
+
+Lemma slot_rel_perm : forall pre run a b, Permutation a b -> slot_rel pre run b -> slot_rel pre run a.
+Proof.
+  intros pre run a b Hp [H1 H2]. split.
+  - eapply perm_trans; [exact H1|]. apply Permutation_map. symmetry. exact Hp.
+  - intros e He. apply H2. eapply Permutation_in; eauto.
+Qed.
+
+(* one update that checkBackendPair reports as applied: the commands it wrote take any running
+   state related to the old layout to a running state related to the new layout, which is again
+   a layout with the same number of slots *)
+Theorem dyn_step : forall old cur resp run,
+  layout_ok (b_eps old) -> cur_ok (b_eps cur) -> b_resolver cur = "" ->
+  slot_rel (b_preserve cur) run (b_eps old) ->
+  let r := check_backend_pair old cur resp in
+  r_updated r = true ->
+  slot_rel (b_preserve cur) (apply_cmds run (r_cmds r)) (r_eps r) /\
+  layout_ok (r_eps r) /\ List.length (r_eps r) = List.length (b_eps old).
+Proof.
+  intros old cur resp run [Hnames Hlay] Hcok Hres Hrel. cbv zeta. unfold check_backend_pair.
+  destruct (Nat.ltb_spec (List.length (b_eps old)) (List.length (b_eps cur))) as [|Hle]; [cbn; discriminate|].
+  rewrite Hres. cbn [String.eqb negb].
+  destruct (b_dyn cur); cbn [negb].
+  2:{ cbn [r_updated r_cmds r_eps]. intros H. apply andb_true_iff in H. destruct H as [_ H].
+      apply eps_eqb_eq in H. rewrite <- H. cbn [apply_cmds fold_left]. split; [exact Hrel|]. split; [split; assumption|reflexivity]. }
+  destruct (dup_target (b_eps old)) eqn:D1; [cbn; discriminate|].
+  destruct (dup_target (b_eps cur)) eqn:D2; [cbn; discriminate|]. cbn [orb].
+  destruct (pair_loop _ _ _) as [ps added] eqn:L.
+  destruct (exec_pairs _ _ ps resp 0) as [ok1 w1] eqn:E1.
+  destruct (exec_fills _ _ _ resp _) as [ok2 w2] eqn:E2.
+  cbn [r_updated r_cmds r_eps].
+  intros Hup. apply andb_true_iff in Hup. destruct Hup as [Hup ->]. apply andb_true_iff in Hup. destruct Hup as [_ ->].
+  apply exec_pairs_true in E1. destruct E1 as [-> Hpc].
+  apply exec_fills_true in E2. destruct E2 as [-> Hfc].
+  assert (Hcn : NoDup (map ep_target (b_eps cur))).
+  { apply cur_nodup_of_dup_target; [apply cur_ok_enabled; exact Hcok|exact D2]. }
+  assert (Hnp : (List.length added <=
+                 List.length (filter (fun e => negb (ep_enabled e)) (b_eps old) ++ vacated ps))%nat).
+  { eapply pairing_no_panic; eauto. }
+  apply Nat.ltb_ge in Hnp. rewrite Hnp.
+  split; [|split].
+  - eapply mb_slot_rel; eauto.
+  - pose proof (mb_layout (b_initw cur) (b_eps old) (b_eps cur) Hnames Hcok D1 Hcn Hle ps added L) as [H1 [_ H3]].
+    split; assumption.
+  - pose proof (mb_layout (b_initw cur) (b_eps old) (b_eps cur) Hnames Hcok D1 Hcn Hle ps added L) as [_ [H2 _]].
+    exact H2.
+Qed.
+
+(* C02, one update from a freshly loaded HAProxy: after replaying the commands, every slot is
+   observed (enabled?, address, port, effective weight, draining, preserved cookie) exactly as
+   if HAProxy had loaded the new configuration *)
+Theorem dyn_refines_reload : forall old cur resp,
+  layout_ok (b_eps old) -> cur_ok (b_eps cur) -> b_resolver cur = "" ->
+  let r := check_backend_pair old cur resp in
+  r_updated r = true ->
+  forall n, obs (b_preserve cur) (apply_cmds (load (b_eps old)) (r_cmds r)) n = obs (b_preserve cur) (load (r_eps r)) n.
+Proof.
+  intros old cur resp Hl Hc Hr. cbv zeta. intros Hup.
+  destruct (dyn_step old cur resp (load (b_eps old)) Hl Hc Hr) as [Hrel [[Hn _] _]]; auto.
+  - apply slot_rel_load. destruct Hl; assumption.
+  - apply slot_rel_obs; assumption.
+Qed.
+
+(* a backend that uses a DNS resolver is written as one server-template line whose only varying
+   part is the number of slots: an applied update keeps it *)
+Theorem resolver_keeps_template : forall old cur resp,
+  b_resolver cur <> "" ->
+  let r := check_backend_pair old cur resp in
+  r_updated r = true -> r_cmds r = [] /\ List.length (r_eps r) = List.length (b_eps old).
+Proof.
+  intros old cur resp Hr. cbv zeta. unfold check_backend_pair.
+  destruct (Nat.ltb_spec (List.length (b_eps old)) (List.length (b_eps cur))) as [|Hle]; [cbn; discriminate|].
+  destruct (String.eqb_spec (b_resolver cur) ""); [contradiction|]. cbn [negb r_updated r_cmds r_eps].
+  intros ->. split; [reflexivity|]. rewrite add_empties_length. lia.
+Qed.
+
+(* ------------------------------------------------------------------ histories between two reloads *)
+
+(* a history of applied updates on one backend: each one re-creates the backend and is checked
+   against the layout the previous one left (possibly reordered in between: sort-endpoints-by) *)
+Inductive history (pre : bool) : backend -> run_state -> backend -> run_state -> Prop :=
+| hist_nil : forall b run, history pre b run b run
+| hist_step : forall old run eps cur resp b' run',
+    Permutation eps (b_eps old) ->
+    cur_ok (b_eps cur) -> b_resolver cur = "" -> b_preserve cur = pre ->
+    r_updated (check_backend_pair (set_eps old eps) cur resp) = true ->
+    history pre (set_eps cur (r_eps (check_backend_pair (set_eps old eps) cur resp)))
+            (apply_cmds run (r_cmds (check_backend_pair (set_eps old eps) cur resp))) b' run' ->
+    history pre old run b' run'.
+
+Theorem dyn_history_rel : forall pre old run b' run',
+  history pre old run b' run' ->
+  layout_ok (b_eps old) -> slot_rel pre run (b_eps old) ->
+  slot_rel pre run' (b_eps b') /\ layout_ok (b_eps b') /\ List.length (b_eps b') = List.length (b_eps old).
+Proof.
+  induction 1 as [b run|old run eps cur resp b' run' Hp Hc Hr Hpre Hup _ IH]; intros Hl Hrel.
+  - auto.
+  - assert (Hl' : layout_ok (b_eps (set_eps old eps))) by (cbn; eapply layout_ok_perm; eauto).
+    assert (Hrel' : slot_rel (b_preserve cur) run (b_eps (set_eps old eps))).
+    { rewrite Hpre. cbn. eapply slot_rel_perm; eauto. }
+    destruct (dyn_step (set_eps old eps) cur resp run Hl' Hc Hr Hrel' Hup) as [R1 [R2 R3]].
+    rewrite Hpre in R1.
+    destruct (IH R2 R1) as [I1 [I2 I3]]. split; [exact I1|]. split; [exact I2|].
+    rewrite I3. cbn [set_eps b_eps] in *. rewrite R3. apply Permutation_length. exact Hp.
+Qed.
+
+(* C02 over histories: from a load of the files, after any number of applied updates, the
+   running HAProxy is observed slot by slot as if it had loaded the last configuration written *)
+Theorem dyn_history_refines_reload : forall pre old b' run',
+  layout_ok (b_eps old) ->
+  history pre old (load (b_eps old)) b' run' ->
+  forall n, obs pre run' n = obs pre (load (b_eps b')) n.
+Proof.
+  intros pre old b' run' Hl H.
+  destruct (dyn_history_rel _ _ _ _ _ H Hl) as [R1 [[R2 _] _]].
+  - apply slot_rel_load. destruct Hl; assumption.
+  - apply slot_rel_obs; assumption.
+Qed.
+
+(* the hypotheses are satisfiable: scale 2 -> 1 -> 2, both updates applied, the second one
+   reuses the first empty slot *)
+Example history_example :
+  let e k ip := mkE (srv_name k) ip 80 (ip ^^ ":80") true 1 (srv_name k) "" "" 0 "" in
+  let back eps := mkB "b" cfg0 true 1 1 false "" 1 eps in
+  let old := back [e 1%nat "10.0.0.1"; e 2%nat "10.0.0.2"; empty_endpoint 1 3] in
+  let c1 := back [e 1%nat "10.0.0.1"] in
+  let c2 := back [e 1%nat "10.0.0.1"; e 2%nat "10.0.0.9"] in
+  let ok := fun _ : nat => AText "" in
+  let r1 := check_backend_pair old c1 ok in
+  let r2 := check_backend_pair (set_eps c1 (r_eps r1)) c2 ok in
+  r_updated r1 = true /\ List.length (r_cmds r1) = 3%nat /\
+  r_updated r2 = true /\ List.length (r_cmds r2) = 3%nat /\ map ep_name (r_eps r2) = ["srv001"; "srv003"; "srv002"].
+Proof. vm_compute. repeat split; reflexivity. Qed.
